@@ -60,8 +60,9 @@ type LoopSpec struct {
 type AtCall struct {
 	Ordinal int
 	Callee  string
-	Kind    string // assert | assume-result (never "assume" on code)
+	Kind    string // assert (before the call) | set (ghost update after the call)
 	C       Clause
+	Ghost   string // for set: the ghost variable assigned
 }
 
 type FuncContract struct {
@@ -139,6 +140,7 @@ type ContractFile struct {
 	Sinks    []string
 	Raw      []string
 	WriteSets []string
+	GhostVars map[string]string
 	Tables   map[string]*OracleTable
 	RowChecks []*RowCheck
 }
@@ -148,7 +150,7 @@ var clauseKeywords = map[string]bool{
 	"loop": true, "inline": true, "mode": true, "recovers": true, "diverges": true, "trusted": true,
 	"nosafe": true, "use": true, "monitor": true, "ghost": true, "case": true, "secret": true,
 	"sink": true, "flag": true, "const": true, "protects": true, "invariant": true, "abstract": true,
-	"inlinecalls": true, "inst": true, "reveal": true, "shared": true, "rows": true, "oracle": true, "row": true, "writeset": true,
+	"inlinecalls": true, "inst": true, "reveal": true, "shared": true, "ghostvar": true, "rows": true, "oracle": true, "row": true, "writeset": true,
 }
 
 func firstWord(s string) string {
@@ -308,6 +310,15 @@ func ParseContractFile(path string) (*ContractFile, error) {
 				vals = append(vals, v)
 			}
 			t.Rows[k] = vals
+		case w == "ghostvar":
+			f := strings.Fields(rest)
+			if len(f) != 2 {
+				return nil, fail(l, "ghostvar NAME SORT")
+			}
+			if cf.GhostVars == nil {
+				cf.GhostVars = map[string]string{}
+			}
+			cf.GhostVars[f[0]] = f[1]
 		case w == "writeset":
 			cf.WriteSets = append(cf.WriteSets, rest)
 		case w == "monitor":
@@ -462,12 +473,28 @@ func ParseContractFile(path string) (*ContractFile, error) {
 			if err != nil {
 				return nil, fail(l, "call ordinal: %v", err)
 			}
-			c, err := parseClause(l, f[6])
-			if err != nil {
-				return nil, err
+			var c Clause
+			if f[5] != "set" {
+				c, err = parseClause(l, f[6])
+				if err != nil {
+					return nil, err
+				}
+			}
+			if f[5] == "set" {
+				// at call K of F set NAME = EXPR   (ghost update after the call; results are visible)
+				i := strings.Index(f[6], "=")
+				if i < 0 {
+					return nil, fail(l, "at call K of F set NAME = expr")
+				}
+				e, err := ParseExpr(strings.TrimSpace(f[6][i+1:]))
+				if err != nil {
+					return nil, fail(l, "%v", err)
+				}
+				curF.Asserts = append(curF.Asserts, AtCall{Ordinal: k, Callee: f[4], Kind: "set", Ghost: strings.TrimSpace(f[6][:i]), C: Clause{E: e, Src: f[6], File: path, Line: l.n}})
+				continue
 			}
 			if f[5] != "assert" {
-				return nil, fail(l, "only 'assert' is allowed at call sites")
+				return nil, fail(l, "only 'assert' and 'set' are allowed at call sites")
 			}
 			curF.Asserts = append(curF.Asserts, AtCall{Ordinal: k, Callee: f[4], Kind: f[5], C: c})
 		case w == "inline":
